@@ -19,11 +19,12 @@ EXPLANATION = (
     "element k at k * element width, and the sizes are max(offset+width) / max(width) / width * length; (c) "
     "Layout.const merges every field with one mask built from that field's own width and offset; from_bits wraps the "
     "raw integer; (d) flag-view operators pass the same-named operator, reflected aliases point at their forward "
-    "method, shaped enums convert through Const(member.value, as_shape()) and cls(bits). NOT decided: the round-trip "
-    "laws for arbitrary layouts."
+    "method, shaped enums convert through Const(member.value, as_shape()) and cls(bits). (e) strided slices of array constants walk the same range as "
+    "the view's Cat(), select the same element window and pack the selected elements contiguously. NOT decided: the "
+    "round-trip laws for arbitrary layouts."
 )
 ASSUMPTIONS = ["CPython ast parses /repo's source as the interpreter would"]
-MIN_INSTANCES = {"R-15a": 5, "R-15b": 7, "R-15c": 3, "R-15d": 7}
+MIN_INSTANCES = {"R-15e": 4, "R-15a": 5, "R-15b": 7, "R-15c": 3, "R-15d": 7}
 
 
 def _norm_cond(t):
@@ -246,4 +247,129 @@ def r15d(model, ctx):
                   f"{E}:{fn.lineno}")
 
 
-RULES = [("R-15a", r15a), ("R-15b", r15b), ("R-15c", r15c), ("R-15d", r15d)]
+def _mentions(node, name):
+    return any(isinstance(n, ast.Name) and n.id == name for n in ast.walk(node))
+
+
+def _split_abs(e):
+    """every abs(X) replaced by X and by -X: list of variants (case split on the sign)"""
+    for n in ast.walk(e):
+        if isinstance(n, ast.Call) and dotted(n.func) == "abs" and len(n.args) == 1:
+            out = []
+            for repl in (n.args[0], ast.UnaryOp(op=ast.USub(), operand=n.args[0])):
+                out.extend(_split_abs(_replace_node(e, n, repl)))
+            return out
+    return [e]
+
+
+def _replace_node(root, target, repl):
+    import copy
+    if root is target:
+        return copy.deepcopy(repl)
+    new = copy.copy(root)
+    for f, v in ast.iter_fields(root):
+        if isinstance(v, ast.AST):
+            setattr(new, f, _replace_node(v, target, repl))
+        elif isinstance(v, list):
+            setattr(new, f, [_replace_node(x, target, repl) if isinstance(x, ast.AST) else x for x in v])
+    return new
+
+
+def r15e(model, ctx):
+    """strided slices of array constants: Const.__getitem__ packs the selected elements contiguously (element k of the
+    selection at k * elem_width), like the Cat() the View twin builds over the same range."""
+    from ..engine.symx import subst
+    R = "R-15e"
+    fv = model.func(f"{D}::View.__getitem__")
+    fc = model.func(f"{D}::Const.__getitem__")
+    # the view's strided branch: Cat(<window(index)> for index in <range>)
+    gens = [n for n in ast.walk(fv) if isinstance(n, ast.Call) and dotted(n.func) == "Cat" and n.args and isinstance(n.args[0], ast.GeneratorExp)]
+    need(len(gens) == 1, "View.__getitem__: strided Cat(...) not found")
+    g = gens[0].args[0]
+    need(len(g.generators) == 1 and isinstance(g.generators[0].target, ast.Name), "View.__getitem__: strided generator shape")
+    v_iter, v_var = g.generators[0].iter, g.generators[0].target.id
+    wv = _window_view(g.elt)
+    need(wv is not None, "View.__getitem__: strided element window not recognised")
+    loops = [n for n in ast.walk(fc) if isinstance(n, ast.For)]
+    need(len(loops) == 1, "Const.__getitem__: strided loop not found")
+    loop = loops[0]
+    counter = None
+    it, tgt = loop.iter, loop.target
+    if isinstance(it, ast.Call) and dotted(it.func) == "enumerate" and isinstance(tgt, ast.Tuple) and len(tgt.elts) == 2:
+        counter, tgt, it = tgt.elts[0].id, tgt.elts[1], it.args[0]
+    need(isinstance(tgt, ast.Name), "Const.__getitem__: strided loop target")
+    ctx.check(unparse(it) == unparse(v_iter), R, "Const.__getitem__:strided:range", f"both twins walk {unparse(v_iter)}",
+              f"Const.__getitem__ walks {unparse(it)} but View.__getitem__ walks {unparse(v_iter)} for a strided slice", f"{D}:{loop.lineno}")
+    # the array layout of the result counts the same range
+    shp = [n for n in ast.walk(fc) if isinstance(n, ast.Call) and dotted(n.func) == "ArrayLayout"] + \
+          [n for n in ast.walk(fv) if isinstance(n, ast.Call) and dotted(n.func) == "ArrayLayout"]
+    ok = len(shp) == 2 and all(len(c.args) == 2 and unparse(c.args[1]) == f"len({unparse(v_iter)})" and
+                               unparse(c.args[0]) == "self.__layout.elem_shape" for c in shp)
+    ctx.check(ok, R, "getitem:slice:result-layout", f"ArrayLayout(elem_shape, len({unparse(v_iter)})) in both twins",
+              "a slice of an array view/constant must have the element shape and as many elements as the range selects", f"{D}:{fc.lineno}")
+    # element window and placement
+    env = {}
+    placed = None
+    for st in loop.body:
+        if isinstance(st, ast.Assign) and isinstance(st.targets[0], ast.Name):
+            env[st.targets[0].id] = subst(st.value, env)
+        elif isinstance(st, ast.AugAssign) and isinstance(st.op, ast.BitOr) and unparse(st.target) == "value":
+            m = pmatch("_V_X << _V_P", st.value)
+            need(m is not None, f"Const.__getitem__: strided placement `{unparse(st)}` not of the form value |= X << P")
+            placed = (subst(m["_V_X"], env), m["_V_P"], st)
+    need(placed is not None, "Const.__getitem__: strided placement not found")
+    wc = _window_const(placed[0])
+    need(wc is not None, f"Const.__getitem__: strided element window `{unparse(placed[0])}` not recognised")
+    ren = {v_var: ast.Name(id=tgt.id, ctx=ast.Load())}
+    wv2 = None
+    for cand in ast.walk(subst(g.elt, ren)):
+        wv2 = _window_view(cand)
+        if wv2 is not None:
+            break
+    ctx.check(wv2 == wc, R, "Const.__getitem__:strided:window", f"element offset {poly_text(wc[0])}, width {poly_text(wc[1])} in both twins",
+              f"strided slice: View selects element window (offset {poly_text(wv2[0])}, width {poly_text(wv2[1])}), Const selects "
+              f"(offset {poly_text(wc[0])}, width {poly_text(wc[1])})", f"{D}:{loop.lineno}")
+    W = wc[1]
+    P, st = placed[1], placed[2]
+    idx = loop.body.index(st)
+    how = None
+    if isinstance(P, ast.Name) and not _mentions(P, tgt.id):
+        # accumulator idiom: starts at 0 before the loop, advanced by W after its use
+        name = P.id
+        incs = [(i, b) for i, b in enumerate(loop.body) if isinstance(b, ast.AugAssign) and unparse(b.target) == name]
+        init0 = False
+        for parent in ast.walk(fc):
+            for fld in ("body", "orelse"):
+                b = getattr(parent, fld, None)
+                if isinstance(b, list) and loop in b:
+                    for x in b[:b.index(loop)]:
+                        if isinstance(x, ast.Assign) and unparse(x.targets[0]) == name:
+                            init0 = const_int(x.value) == 0
+        ok = init0 and len(incs) == 1 and isinstance(incs[0][1].op, ast.Add) and incs[0][0] > idx and poly(incs[0][1].value) == W
+        how = f"accumulator `{name}` from 0 advanced by {poly_text(W)} after use"
+    elif counter is not None and not _mentions(P, tgt.id):
+        ok = poly(P) == {tuple(sorted((counter,) + m)): c for m, c in W.items()}
+        how = f"enumerate counter `{counter}` times {poly_text(W)}"
+    else:
+        # closed form in the loop variable: the finite difference along the range step must be the element width
+        step = it.args[2] if isinstance(it, ast.Call) and dotted(it.func) == "range" and len(it.args) == 3 else ast.Constant(value=1)
+        oks = []
+        for variant in _split_abs(P):
+            for a in ast.walk(variant):
+                if not isinstance(a, (ast.BinOp, ast.UnaryOp, ast.Name, ast.Constant, ast.operator, ast.unaryop, ast.expr_context)):
+                    if _mentions(a, tgt.id):
+                        raise AnalysisError(f"Const.__getitem__: strided placement `{unparse(P)}` is not polynomial in `{tgt.id}`; "
+                                            f"contiguity cannot be decided")
+                if isinstance(a, ast.BinOp) and not isinstance(a.op, (ast.Add, ast.Sub, ast.Mult)) and _mentions(a, tgt.id):
+                    raise AnalysisError(f"Const.__getitem__: strided placement `{unparse(P)}` is not polynomial in `{tgt.id}`")
+            nxt = subst(variant, {tgt.id: ast.BinOp(left=ast.Name(id=tgt.id, ctx=ast.Load()), op=ast.Add(), right=step)})
+            oks.append(poly_sub(poly(nxt), poly(variant)) == W)
+        ok = all(oks)
+        how = f"closed form {unparse(P)} whose step along the range is the element width"
+    ctx.check(ok, R, "Const.__getitem__:strided:contiguous", how,
+              f"strided slice of an array constant: the k-th selected element must be placed at bit k * ({poly_text(W)}) — "
+              f"`{unparse(st)}` does not advance by exactly one element width per selected element (it agrees with the view's "
+              f"Cat(...) only for unit strides)", f"{D}:{st.lineno}")
+
+
+RULES = [("R-15e", r15e), ("R-15a", r15a), ("R-15b", r15b), ("R-15c", r15c), ("R-15d", r15d)]
